@@ -4,8 +4,8 @@
    [grammar] table; regex terminals and ignore_case StrMatches are answered by an oracle
    (Python's re / str.lower on the concrete text).  Model/Peg.v interprets the table.
    All statements below are for EVERY table, text, oracle, fuel and both memoization settings. *)
-From TxV Require Import Core.Base Model.PegSyntax Model.Peg Model.KwDefs Gen.SrcKw Model.Kw
-     Proofs.PegCongr Proofs.KwProofs Proofs.KwCheckProofs Proofs.KwWitness Proofs.KwStatements.
+From TxV Require Import Core.Base Model.PegSyntax Model.Peg Model.Build Model.KwDefs Gen.SrcKw Model.Kw
+     Proofs.PegCongr Proofs.KwProofs Proofs.PegInv Proofs.KwCheckProofs Proofs.KwBuild Proofs.KwModel Proofs.KwWitness Proofs.KwStatements.
 
 (* (1) What visit_str_match / visit_re_match of the CURRENT source construct under ignore_case=True:
    every string literal (plain or keyword-like under autokwd) and every user regex gets the flag.
@@ -68,6 +68,36 @@ Theorem C20_values_keep_case : forall lower s s' p len,
   ((forall i, p <= i < p + len -> nth_error s' i = nth_error s i) -> slice s' p len = slice s p len).
 Proof. exact stmt_C20_values_keep_case. Qed.
 Print Assumptions C20_values_keep_case.
+
+(* (5') The property at the level of the constructed model (Model/Build.v = textx/model.py
+   parse_tree_to_objgraph on the dumped metamodel table [mm], validated by the C01/C06 correspondence):
+   under the hypotheses of (3), if the original is accepted with tree [r] and no changed letter lies inside
+   a match that a base type converts (INT FLOAT STRICTFLOAT BOOL STRING), then the variant is accepted with
+   the same tree and the two object graphs are related by [vrel lower]: same classes, attribute names,
+   positions, list shapes, the same error if construction fails; every string value is identical or - when it
+   is (built from) an input slice of a regex terminal - equal up to letter case, i.e. it keeps the case it was
+   written in; StrMatch values are the grammar's text in both.  (use_regexp_group=False.) *)
+Theorem C20_model_structure : forall lower g cfg (O : list N -> nat -> nat -> option nat) memo fuel s s' mm grp grp' auto r,
+  all_str_icase g = true ->
+  (forall nid nd o, get_node g nid = Some nd -> kind_oid (n_kind nd) = Some o -> case_blind lower O o) ->
+  case_variant lower s s' ->
+  Forall2 (char_ok (ws_universe g cfg)) s s' ->
+  run g cfg (O s) memo fuel s = Parsed r ->
+  base_matches_unchanged g s s' r ->
+  run g cfg (O s') memo fuel s' = Parsed r /\
+  vbrel lower (build g mm s grp auto false r) (build g mm s' grp' auto false r).
+Proof. exact icase_model_structure. Qed.
+Print Assumptions C20_model_structure.
+
+Example C20_model_structure_nonvacuous :
+  exists r v,
+    run g_begin cfg_default (orc_of tbl_begin) false 50 in_begin1 = Parsed r /\
+    base_matches_unchanged g_begin in_begin1 in_begin2 r /\
+    build g_begin mm_begin in_begin1 no_grp true false r = BOk v /\
+    build g_begin mm_begin in_begin2 no_grp true false r = BOk v /\
+    v = VObj [77;111;100;101;108]%N 0 11 [([110;97;109;101]%N, VTerm [73;68]%N [120]%N)].
+Proof. exact stmt_C20_model_structure_nonvacuous. Qed.
+Print Assumptions C20_model_structure_nonvacuous.
 
 (* (6) Outside the hypothesis of (3) the statement fails: BOOL is a built-in whose regex is case
    sensitive whatever ignore_case says.  `Model: b=BOOL | 'true' x=ID;` accepts "TRUE a" through
